@@ -20,7 +20,7 @@ def classify_crash(cr):
 
 SPEC = {
     'id': 'C12',
-    'lean_modules': ['AITB.Props.C12Spec', 'AITB.Props.C12Interp', 'AITB.Props.C12CheckSound'],
+    'lean_modules': ['AITB.Props.C12Spec', 'AITB.Props.C12Interp', 'AITB.Props.C12InterpOpt', 'AITB.Props.C12CheckSound'],
     'theorems': [
         # headline statements (library tolerances / exact reading)
         'AITB.Prune.extractDominated_spec', 'AITB.Prune.extractDominated_exact_spec',
@@ -52,6 +52,7 @@ SPEC = {
         'AITB.Interp.sawtooth_asFound_crash_witness', 'AITB.Interp.sawtooth_asFound_uninit_witness', 'AITB.Interp.sawtooth_asFound_slot_witness',
         'AITB.Interp.lpInterp_variant_agree_full_support', 'AITB.Interp.lpInterp_asFound_slot_witness', 'AITB.Interp.lpInterp_repaired_slot_witness',
         'AITB.Interp.lpInterp_asFound_nan_witness', 'AITB.Interp.lpInterp_repaired_nan_witness', 'AITB.Interp.lpinterp_weights',
+        'AITB.Interp.sawtooth_bounds', 'AITB.Interp.lpinterp_optimal', 'AITB.Interp.lpinterp_optimal_needs_mass',
     ],
     'harness': 'harness/c12.cpp',
     'level': 'proof',
